@@ -426,16 +426,17 @@ def run_job(job, base: Path):
         try:
             labf = labtech.Lab(storage=storage, context={'c': 3}, runner_backend='fork', max_workers=2, notebook=False)
             fresh_objs = [_mk(type(t), _var(t)) for _o, t in sample]
-            for f in fresh_objs:     # one call each: tasks that are equal in Python (1 / 1.0 / True) must not share a call
-                labf.run_tasks([f], bust_cache=True, disable_progress=True, disable_top=True)
-            relist = {}
             for (o, t), f in zip(sample, fresh_objs):
+                # one call each: tasks that are equal in Python (1 / 1.0 / True) must not share a call; and listed at once:
+                # a later call of the sample may execute this task again as one of its dependencies (bust_cache)
+                labf.run_tasks([f], bust_cache=True, disable_progress=True, disable_top=True)
                 name = o['ty']
-                if name not in relist:
-                    relist[name] = lab.cached_tasks([_types()[name]])
+                relisted = lab.cached_tasks([_types()[name]])
                 tree = kc(from_py(t))
-                m = [x for x in relist[name] if type(x) is type(t) and x == t and kc(from_py(x)) == tree]
+                m = [x for x in relisted if type(x) is type(t) and x == t and kc(from_py(x)) == tree]
                 o['relisted_meta_ok'] = bool(m and f.result_meta is not None and meta_tok(m[0].result_meta) == meta_tok(f.result_meta))
+                if not o['relisted_meta_ok']:
+                    o['relist_detail'] = [len(m), [meta_tok(x.result_meta) for x in m[:3]], meta_tok(f.result_meta), f.cache_key, t.cache_key]
         except BaseException as ex:   # noqa
             for o, _t in sample:
                 o['relisted_meta_ok'] = False
